@@ -352,12 +352,18 @@ def check_order(Epoch, F, a, b):
     except Exception as ex:
         F.add("compare-raises", "comparing Epoch(%r), Epoch(%r) raises %r" % (a, b, ex), [a, b], "Epoch(%r) < Epoch(%r)" % (a, b))
         return
-    want = {"<": ja < jb, "<=": ja <= jb, ">": ja > jb, ">=": ja >= jb}
-    if ja == jb: want["=="] = True; want["!="] = False
-    elif abs(ja - jb) > 1e-9: want["=="] = False; want["!="] = True
+    # literally: all six operators order the Epochs as their JDE values
+    want = {"<": ja < jb, "<=": ja <= jb, ">": ja > jb, ">=": ja >= jb, "==": ja == jb, "!=": ja != jb}
     for op, w in want.items():
         for kind, g in (("epoch", got), ("float", gotf)):
             if g[op] is not w:
+                # known finding (documented design: == and != use the tolerance base.TOL = 1e-10 day while < and > are
+                # exact): two different JDEs less than 1e-10 apart compare equal AND ordered
+                if op in ("==", "!=") and 0.0 < abs(ja - jb) < 1e-10 and g["=="] is True and g["!="] is False:
+                    F.add("order-eq-within-tolerance", "Epoch(%r) %s %s(%r) is %r although the JDEs %r, %r differ (by %.3g < 1e-10: == uses base.TOL, < does not)"
+                          % (a, op, "Epoch" if kind == "epoch" else "", b, g[op], ja, jb, abs(ja - jb)),
+                          [a, b], "Epoch(%r) %s %s" % (a, op, ("Epoch(%r)" % b) if kind == "epoch" else repr(jb)))
+                    continue
                 F.add("order-" + {"<": "lt", "<=": "le", ">": "gt", ">=": "ge", "==": "eq", "!=": "ne"}[op] + "-" + kind,
                       "Epoch(%r) %s %s(%r) is %r but the JDEs are %r, %r" % (a, op, "Epoch" if kind == "epoch" else "", b, g[op], ja, jb),
                       [a, b], "Epoch(%r) %s %s" % (a, op, ("Epoch(%r)" % b) if kind == "epoch" else repr(jb)))
@@ -377,8 +383,7 @@ def search(rng, tier, deep):
     prev = None
     for x in js:
         fd = check_jde(Epoch, F, x)
-        if fd is not None and prev is not None and tuple(fd) < tuple(prev[1]) and not (
-                tuple(fd[:5]) == tuple(prev[1][:5]) and abs(fd[5] - prev[1][5]) < 1e-3):
+        if fd is not None and prev is not None and tuple(fd) < tuple(prev[1]):      # literal: never decreasing
             F.add("date-decreasing", "JDE %r -> %r but the smaller JDE %r -> %r" % (x, fd, prev[0], prev[1]), [prev[0], x],
                   "Epoch(%r).get_full_date(), Epoch(%r).get_full_date()" % (prev[0], x))
         if fd is not None: prev = (x, fd)
